@@ -27,7 +27,8 @@ M = [2.0, 4.5, 100.0]
 SC = {3: 1.5, 4: 3.0, 5: 10.0, 6: 150.0}
 PATHS = [(3, 3), (4, 4), (5, 5), (3, 4), (3, 5), (4, 5), (4, 3), (5, 4), (5, 3)]
 KINDS = [dict(polarized=False, time_like=False), dict(polarized=True, time_like=False), dict(polarized=False, time_like=True)]
-MOMENTS = [2.0, 3.3]
+# N = 2 exactly is avoided: the O(a_s^3) matching elements are 0/0 there (known finding, C26)
+MOMENTS = [2.3, 3.3]
 PIDS = probe.FLAVOR_PIDS
 
 
